@@ -119,11 +119,15 @@ impl Family for C04Family {
         c.rng_seed = r.next_u64();
         c.cell = Some(cell_no as u32);
         c.twin = if cell.present { Twin::DropMatching } else { Twin::None };
-        let mut pre = gen_prelude(&mut r, 2, None);
+        let two = r.bool();
+        let mut pre = gen_prelude(&mut r, 3, None);
         pre[0].rp_id = OTHER_RP.into();
         pre[1].rp_id = RP.into();
+        pre[2].rp_id = RP.into();
         if !cell.present {
             pre.truncate(1);
+        } else if !two {
+            pre.truncate(2);
         }
         c.prelude = pre;
         let mut actor = gen_actor(&mut r);
@@ -136,20 +140,24 @@ impl Family for C04Family {
             if cell.make {
                 let mut s = gen_reg(&mut r, 0);
                 s.algs = vec![-7];
-                s.exclude = Some(vec![if cell.present { hit } else { miss }]);
+                s.exclude = Some(vec![if cell.present { hit.clone() } else { miss.clone() }]);
                 s.sel = Some(Sel { rk: None, require_rk: false, uv: cell.uv_req });
                 s.cred_props = None;
                 OpKind::Register(s)
             } else {
                 let mut s = gen_auth(&mut r, 0);
-                s.allow = if r.bool() { None } else { Some(vec![hit]) };
+                s.allow = match r.below(3) {
+                    0 => None,
+                    1 => Some(vec![hit.clone()]),
+                    _ => Some(vec![IdRef::NthOfRp(1), IdRef::NthOfRp(0)]),
+                };
                 s.uv = cell.uv_req;
                 OpKind::Authenticate(s)
             }
         } else if cell.make {
             let mut s = gen_mc(&mut r, RP);
             s.algs = vec![-7];
-            s.exclude = Some(vec![if cell.present { hit } else { miss }]);
+            s.exclude = Some(vec![if cell.present { hit.clone() } else { miss.clone() }]);
             s.rk = cell.rk;
             s.up = cell.up;
             s.uv = cell.uv;
@@ -157,7 +165,11 @@ impl Family for C04Family {
             OpKind::MakeCredential(s)
         } else {
             let mut s = gen_ga(&mut r, RP);
-            s.allow = if r.bool() { None } else { Some(vec![hit]) };
+            s.allow = match r.below(3) {
+                0 => None,
+                1 => Some(vec![hit.clone()]),
+                _ => Some(vec![IdRef::NthOfRp(1), IdRef::NthOfRp(0)]),
+            };
             s.rk = cell.rk;
             s.up = cell.up;
             s.uv = cell.uv;
@@ -177,7 +189,7 @@ impl Family for C04Family {
         let rec = run_and_measure(c, stats);
         let mut j = Judge::new("C04", scn, &rec);
         stats.cells_total = CELLS;
-        for p in ["consent_missing_twin_compared", "success_with_unrequested_verification", "success_without_any_requirement", "denied_by_user", "validation_error", "uv_requested_without_capability"] {
+        for p in ["two_matching_credentials", "consent_missing_twin_compared", "success_with_unrequested_verification", "success_without_any_requirement", "denied_by_user", "validation_error", "uv_requested_without_capability"] {
             stats.declare_probe(p);
         }
         if rec.panic.is_some() || rec.outcome != Outcome2::Done {
@@ -189,6 +201,9 @@ impl Family for C04Family {
             stats.nontrivial.insert(u64::from(cell));
         }
         let Some(o) = rec.op(0, 0) else { return Vec::new() };
+        if c.prelude.iter().filter(|p| p.rp_id == RP).count() > 1 {
+            stats.probe("two_matching_credentials");
+        }
         let spec = op_spec(c, o);
         let kind = &spec.kind;
         let actor = &c.actors[0];
